@@ -47,6 +47,8 @@ class Outcome:
         self.positions: List[Optional[Tuple[int, int]]] = []
         self.raised: Optional[str] = None         # repository exception that ended the statement (a fatal diagnostic)
         self.hang: Optional[str] = None           # rule whose interpretation exceeded the step budget
+        self.sub: Optional[str] = None            # class of the scope the statement asks to enter (context.sub), if any
+        self.multiline: Optional[bool] = None     # `multiline` of the current scope after the statement
 
     def at(self, code: str) -> List[Optional[Tuple[int, int]]]:
         return [p for c, p in zip(self.codes, self.positions) if c == code]
@@ -76,6 +78,9 @@ def run_statement(prog: Program, tokens: Sequence[Obj], primary: str, checks: Se
         return out
     if isinstance(r, (tuple, list)) and len(r) == 2:
         out.matched, out.claimed = bool(r[0] is True), r[1] if isinstance(r[1], int) else 0
+    sub = sc.obj.__dict__.get("sub")
+    out.sub = getattr(sub, "_cls", None) if sub is not None else None
+    out.multiline = getattr(sc.obj.__dict__.get("scope"), "multiline", None)
     if not out.matched:
         out.codes, out.positions = sc.codes(), list(sc.positions)
         return out
